@@ -39,6 +39,6 @@ def one(name):
 
 base = sys.argv[1] if len(sys.argv) > 1 else os.path.join(VERIF, "refactors")
 names = sorted(n for n in os.listdir(base) if os.path.exists(os.path.join(base, n, "patch.diff")))
-with ThreadPoolExecutor(max_workers=4) as ex:
+with ThreadPoolExecutor(max_workers=int(os.environ.get("RV_WORKERS", "4"))) as ex:
     for name, res in ex.map(one, names):
         print(name, res.get("suite_with_patch"), "|", res.get("normaliser_rewrites"), "|", res.get("suite_normalised"), res.get("error", ""), flush=True)
